@@ -150,6 +150,8 @@ pub struct RunClass {
     pub stale_unconfirmed_rewinds: u64,
     /// transactions with an erroring attempt between two successful ones
     pub err_between_successes: u64,
+    /// largest incarnation number any transaction reached
+    pub max_incarnation: u64,
 }
 
 pub fn classify(log: &[LoggedEv]) -> RunClass {
@@ -176,6 +178,7 @@ pub fn classify(log: &[LoggedEv]) -> RunClass {
                     c.reexecutions += 1;
                 }
                 last_inc.insert(*txid, *incarnation);
+                c.max_incarnation = c.max_incarnation.max(*incarnation as u64);
             }
             Ev::AttemptEnd { kind, new_write_locations, incarnation, .. } => {
                 if *kind == 1 || *kind == 2 {
